@@ -30,6 +30,7 @@ import os, re, subprocess, sys, tempfile
 REPO = os.environ.get("ZVBI_REPO", "/repo")
 HERE = os.path.dirname(os.path.abspath(__file__))
 OUT = os.path.join(HERE, "..", "lean", "ZvbiModel", "Generated", "UreLayout.lean")
+OUT_ANCHORS = os.path.join(HERE, "..", "lean", "ZvbiModel", "Generated", "UreAnchors.lean")
 
 
 def die(msg):
@@ -151,9 +152,34 @@ def read(repo=None):
     ex = func_body(src, "ure_exec")
     old_bol = "if (lp == text) { sp = lp; matched = 1; } else if (_ure_isbrk(c))"
     new_bol = "if (lp == text) { if (bol_steps > dfa->nstates) break; bol_steps++; sp = lp; matched = 1; } else if (_ure_isbrk(c))"
-    if (old_bol in ex) == (new_bol in ex):
-        die("ure_exec: `^` at the start of the text: unknown shape")
-    bol_guard = new_bol in ex
+    # line anchors (fixes/C17-line-anchors.diff, ure.c half): four places, all or none
+    anc_bol = ("case _URE_BOL_ANCHOR: if (lp == text) { if (flags & URE_NOTBOL) break; } else if (!_ure_isbrk(lp[-1]) || "
+               "(lp[-1] == '\\r' && c == '\\n')) break; if (bol_at != lp) { bol_at = lp; bol_steps = 0; } "
+               "if (bol_steps > dfa->nstates) break; bol_steps++; sp = lp; matched = 1; break; case _URE_EOL_ANCHOR:")
+    found_bol = "case _URE_BOL_ANCHOR: if (flags & URE_NOTBOL) break; if (lp == text) {"
+    anc = [anc_bol in ex,
+           "case _URE_EOL_ANCHOR: if (_ure_isbrk(c)) { sp = lp; matched = 1; } break;" in ex,
+           "for (i = 0; found == 0 && !(flags & URE_NOTEOL) && i < stp->ntrans; i++) { sym = dfa->syms + stp->trans[i].symbol; "
+           "if (sym->type ==_URE_EOL_ANCHOR) {" in ex,
+           "} else { found = 1; } } }" in ex]
+    fnd = [found_bol in ex and ((old_bol in ex) != (new_bol in ex)),
+           "case _URE_EOL_ANCHOR: if (flags & URE_NOTEOL) break; if (_ure_isbrk(c)) { sp = lp; matched = 1; } break;" in ex,
+           "for (i = 0; found == 0 && i < stp->ntrans; i++) { sym = dfa->syms + stp->trans[i].symbol; "
+           "if (sym->type ==_URE_EOL_ANCHOR) {" in ex,
+           "} else { found = 1; me = sp - text; } } }" in ex]
+    if all(anc) and not any(fnd):
+        line_anchors = True
+    elif all(fnd) and not any(anc):
+        line_anchors = False
+    else:
+        die("ure_exec: line anchors (`^` case, `$` case, end-of-text look-ahead, match end at the end of the text): "
+            "unknown or half-applied shape %r %r" % (anc, fnd))
+    if line_anchors:
+        bol_guard = True        # the guard exists in the repaired shape (counted per position)
+    else:
+        if (old_bol in ex) == (new_bol in ex):
+            die("ure_exec: `^` at the start of the text: unknown shape")
+        bol_guard = new_bol in ex
     for t in ("if (acc_me != (unsigned long) ~0) { me = acc_me; found = 1; } else { if (ms != (unsigned long) ~0) sp = text + ms + 1;",
               "if (stp->accepting) acc_me = me;", "#if 0 if (sp < ep && 0xd800 <= c"):
         if t not in ex:
@@ -196,13 +222,14 @@ def read(repo=None):
     if "(lhs == _URE_NOOP || rhs == _URE_NOOP)" not in me or "b->error = _URE_UNEXPECTED_EOS; return _URE_NOOP;" not in me:
         die("_ure_make_expr: operand test (repair of F47) not found")
     return dict(env=env, cflags=cflags, trie=trie, spmap=spmap, issep_brk=issep_brk, bol_guard=bol_guard,
-                pat_guard=pat_guard, posix_min=posix_min, colon_min=colon_min, eot_restart=eot_restart)
+                pat_guard=pat_guard, posix_min=posix_min, colon_min=colon_min, eot_restart=eot_restart,
+                line_anchors=line_anchors)
 
 
 def flags(repo=None):
     """-> dict(issep_brk, bol_guard, pat_guard, posix_min, colon_min, eot_restart) for lib/ure_stage.py"""
     r = read(repo)
-    return {k: r[k] for k in ("issep_brk", "bol_guard", "pat_guard", "posix_min", "colon_min", "eot_restart")}
+    return {k: r[k] for k in ("issep_brk", "bol_guard", "pat_guard", "posix_min", "colon_min", "eot_restart", "line_anchors")}
 
 
 PROBE = r'''
@@ -333,6 +360,18 @@ def main():
           "/-- towlower: (lo, hi, delta) runs with towlower c = c + delta -/",
           "def lowerRuns : List (Nat × Nat × Int) := " + lean_list(["(0x%x, 0x%x, %d)" % x for x in p["lower"]], 6),
           "", "end Zvbi.Gen.Ure", ""]
+    anchors_text = "\n".join([
+        "-- GENERATED by translate/gen_ure.py from src/ure.c - do not edit",
+        "namespace Zvbi.Gen.Ure", "",
+        "/-- ure_exec: `^` is a zero-width test \"in front of the first character of a line\" (URE_NOTBOL = the text does not begin",
+        "    at a line start), URE_NOTEOL switches off the end-of-text look-ahead only, the match end in front of a final",
+        "    separator is kept (fixes/C17-line-anchors.diff); false = as found (C17-U8, C17-U9, reading of the flags behind C17-D8) -/",
+        "def lineAnchors : Bool := %s" % str(r["line_anchors"]).lower(),
+        "", "end Zvbi.Gen.Ure", ""])
+    old_a = open(OUT_ANCHORS).read() if os.path.exists(OUT_ANCHORS) else None
+    if old_a != anchors_text:
+        open(OUT_ANCHORS, "w").write(anchors_text)
+        print("UreAnchors.lean changed")
     text = "\n".join(L)
     old = open(OUT).read() if os.path.exists(OUT) else None
     if old != text:
